@@ -207,6 +207,116 @@ pub fn probe_programs(shape: &Shape) -> Vec<Prog> {
     out
 }
 
+/// Shapes far beyond the enumerated box: long vectors (around 16, 100, 255 / 256 / 257 cells), wide and
+/// tall matrices, cubes, 4 to 6 dimensions, negative and large lower bounds.
+pub fn big_shapes() -> Vec<Shape> {
+    let dims: Vec<Vec<(i32, i32)>> = vec![
+        vec![(0, 10)],
+        vec![(1, 16)],
+        vec![(-5, 17)],
+        vec![(0, 100)],
+        vec![(1, 255)],
+        vec![(0, 256)],
+        vec![(-128, 257)],
+        vec![(1000, 33)],
+        vec![(0, 9), (1, 11)],
+        vec![(-3, 7), (2, 13)],
+        vec![(1, 16), (1, 16)],
+        vec![(0, 2), (0, 130)],
+        vec![(0, 130), (0, 2)],
+        vec![(1, 4), (-1, 5), (0, 6)],
+        vec![(0, 8), (0, 8), (0, 8)],
+        vec![(0, 2), (1, 3), (-1, 2), (0, 3)],
+        vec![(1, 2), (1, 2), (1, 2), (1, 2), (1, 2)],
+        vec![(0, 2), (0, 2), (0, 2), (0, 2), (0, 2), (0, 2)],
+    ];
+    dims.into_iter().map(|d| Shape { dims: d, explicit: true }).collect()
+}
+
+/// Fill by nested FOR loops (subscripts are variables): every cell gets its row-major number, then
+/// every cell is checked in a second nest in reverse order of the dimensions, mismatches are printed,
+/// a checksum and the corner cells are printed.
+pub fn loop_fill_program(shape: &Shape, elem_ty: Ty) -> Prog {
+    let mut b = B::new();
+    let elem = Elem::Scalar(elem_ty);
+    let an = arr_name("A", elem);
+    let n = shape.dims.len();
+    let ivar = |d: usize| var(&format!("I{}%", d));
+    let subs: Vec<Expr> = (0..n).map(ivar).collect();
+    let stored = |k: Expr| -> Expr {
+        match elem_ty {
+            Ty::Str => bin(BinOp::Add, st("c"), builtin("STR$", vec![k])),
+            _ => k,
+        }
+    };
+    let mut main = vec![dim_stmt(&mut b, "A", shape, elem), b.assign(var("K&"), num(0))];
+    // innermost body of the first nest
+    let mut body = vec![b.assign(var("K&"), bin(BinOp::Add, var("K&"), num(1))), b.assign(Expr::Index(an.clone(), subs.clone()), stored(var("K&")))];
+    for d in (0..n).rev() {
+        let (lo, ext) = shape.dims[d];
+        body = vec![b.s(K::For { var: ivar(d), from: num(lo), to: num(lo + ext - 1), step: None, body, next_var: true })];
+    }
+    main.extend(body);
+    main.push(b.print(vec![st("cells"), var("K&")]));
+    // the expected value of a cell from its subscripts: row-major position + 1
+    let mut pos: Expr = num(0);
+    for d in 0..n {
+        let (lo, ext) = shape.dims[d];
+        let off = if lo == 0 { ivar(d) } else { Expr::Paren(Box::new(bin(BinOp::Sub, ivar(d), num(lo)))) };
+        pos = if d == 0 { off } else { bin(BinOp::Add, bin(BinOp::Mul, Expr::Paren(Box::new(pos)), num(ext)), off) };
+    }
+    let expect = bin(BinOp::Add, pos, num(1));
+    let mut items = vec![st("bad")];
+    items.extend(subs.clone());
+    items.push(Expr::Index(an.clone(), subs.clone()));
+    let bad = b.print(items);
+    let mut body = vec![
+        b.assign(var("E&"), expect),
+        b.s(K::If { arms: vec![(bin(BinOp::Ne, Expr::Index(an.clone(), subs.clone()), stored(var("E&"))), vec![bad])], els: None, single_line: false }),
+        b.assign(var("S#"), bin(BinOp::Add, var("S#"), var("E&"))),
+    ];
+    // second nest: dimensions in the opposite nesting order, each running downwards
+    for d in 0..n {
+        let (lo, ext) = shape.dims[d];
+        body = vec![b.s(K::For { var: ivar(d), from: num(lo + ext - 1), to: num(lo), step: Some(num(-1)), body, next_var: true })];
+    }
+    main.extend(body);
+    main.push(b.print(vec![st("sum"), var("S#")]));
+    let corner_lo: Vec<i32> = shape.dims.iter().map(|(lo, _)| *lo).collect();
+    let corner_hi: Vec<i32> = shape.dims.iter().map(|(lo, e)| lo + e - 1).collect();
+    main.push(b.print(vec![Expr::Index(an.clone(), idx(&corner_lo)), Expr::Index(an.clone(), idx(&corner_hi))]));
+    for d in 1..=n {
+        main.push(b.print(vec![builtin("LBOUND", vec![var(&an), num(d as i64)]), builtin("UBOUND", vec![var(&an), num(d as i64)])]));
+    }
+    Prog { main, ..Default::default() }
+}
+
+/// The programs of the `big` group: literal fill / read-back for boxes of <= 300 cells, loop fill for
+/// all, probes at every face.
+pub fn big_programs() -> Vec<(Prog, String)> {
+    let mut out = vec![];
+    for s in big_shapes() {
+        let cells: i64 = s.dims.iter().map(|d| d.1 as i64).product();
+        if cells <= 300 {
+            for e in [Elem::Scalar(Ty::Int), Elem::Scalar(Ty::Str)] {
+                out.push((fill_program(&s, e), format!("big fill {:?} {:?}", s.dims, e)));
+            }
+            if cells <= 130 {
+                for e in [Elem::Rec, Elem::Fix3, Elem::Scalar(Ty::Double)] {
+                    out.push((fill_program(&s, e), format!("big fill {:?} {:?}", s.dims, e)));
+                }
+            }
+        }
+        for t in [Ty::Int, Ty::Long, Ty::Str] {
+            out.push((loop_fill_program(&s, t), format!("big loop fill {:?} {:?}", s.dims, t)));
+        }
+        for (i, p) in probe_programs(&s).into_iter().enumerate() {
+            out.push((p, format!("big probe {:?} #{}", s.dims, i)));
+        }
+    }
+    out
+}
+
 /// (iii) write isolation: every ordered pair of writes with a full dump after each.
 pub fn isolation_programs(shape: &Shape, elem: Elem) -> Vec<Prog> {
     let all = cells(shape);
